@@ -68,7 +68,7 @@ type Rec struct {
 var dKeys = []string{"testdb:json/a", "testdb:json/b", "testdb:struct/c", "testdb:raw/d", "testdb:missing/e", "testdb:json/new1", "testdb:json/new2", "nodb:x", "testdb:", "bad key"}
 var dQueries = []string{"query testdb:", "query testdb:json/", "query testdb:json/ where S sameas alpha", "query testdb:raw", "query nodb:", "query testdb: where (", "nonsense", "query testdb:json/ where N exists", ""}
 var dBodies = []string{`J{"N":"w1","S":"alpha"}`, `J{"N":"w2","S":"beta","X":{"y":[1,2,3]}}`, `J{}`, `J[1,2]`, `J"str"`, `Jnot json`, `J`, ``, `C` + "\xa1aNbw3", `{"S":"inserted"}`, `{"S":{"deep":1}}`, `[]`, `{"":1}`, `5`, `J{"N":"w|4","S":"al|pha|"}`, `J{"N":"|","S":"alpha"}`}
-var dGaps = []time.Duration{0, time.Millisecond, 5 * time.Millisecond}
+var dGaps = []time.Duration{0, time.Millisecond, 5 * time.Millisecond, 50 * time.Millisecond}
 
 func genC13(rng *rand.Rand, tier string) *DBPlan {
 	p := &DBPlan{Backend: []string{"hashmap", "bbolt"}[rng.IntN(2)], Veto: rng.IntN(3) == 0}
@@ -97,6 +97,19 @@ func genC13(rng *rand.Rand, tier string) *DBPlan {
 			msgs = append(msgs, m)
 		}
 		p.Conns = append(p.Conns, msgs)
+	}
+	if rng.IntN(5) == 0 {
+		// read-back scenario: one connection creates a record and reads it, another one changes it, the first reads
+		// again well after that (whatever the first connection remembers must not be served in place of the change)
+		k := 5 + rng.IntN(2)
+		b0, b1 := rng.IntN(2), rng.IntN(2)
+		first := []DMsg{{Kind: "create", Key: k, Body: b0}, {Kind: "get", Key: k, Gap: 1}, {Kind: "get", Key: k, Gap: 3}, {Kind: "get", Key: k, Gap: 3}}
+		second := []DMsg{{Kind: []string{"update", "create"}[rng.IntN(2)], Key: k, Body: b1, Gap: 2}}
+		if rng.IntN(3) == 0 {
+			second = append(second, DMsg{Kind: "delete", Key: k, Gap: 3}, DMsg{Kind: "create", Key: k, Body: b0, Gap: 2})
+			first = append(first, DMsg{Kind: "get", Key: k, Gap: 3})
+		}
+		p.Conns = [][]DMsg{first, second}
 	}
 	nw := rng.IntN(10)
 	for i := 0; i < nw; i++ {
@@ -516,7 +529,32 @@ func rawID(cs *connState, msgs []DMsg, op string) bool {
 }
 
 func checkReadBack(ci int, cs *connState, p *DBPlan, rc *simkit.RunCtx) {
-	for i, op := range cs.order {
+	s, _ := rc.Data.(*c13State)
+	if s == nil {
+		return
+	}
+	type wr struct {
+		req           *reqRec
+		sent, replied uint64 // replied: sequence number of the success/error reply (0: none)
+	}
+	// every write request to the keys only the API writes, on any connection
+	var writesTo = map[string][]wr{}
+	for _, c := range s.conns {
+		for _, op := range c.order {
+			o := c.reqs[op]
+			if !(o.Kind == "create" || o.Kind == "update" || o.Kind == "insert" || o.Kind == "delete") {
+				continue
+			}
+			w := wr{req: o, sent: o.Seq}
+			for _, r := range c.replies {
+				if r.Op == op && (r.Type == "success" || r.Type == "error") {
+					w.replied = r.Seq
+				}
+			}
+			writesTo[o.Key] = append(writesTo[o.Key], w)
+		}
+	}
+	for _, op := range cs.order {
 		w := cs.reqs[op]
 		if w.Kind != "create" && w.Kind != "update" {
 			continue
@@ -525,86 +563,73 @@ func checkReadBack(ci int, cs *connState, p *DBPlan, rc *simkit.RunCtx) {
 			continue
 		}
 		// success?
-		ok := false
 		var wSeq uint64
 		for _, r := range cs.replies {
 			if r.Op == op && r.Type == "success" {
-				ok, wSeq = true, r.Seq
+				wSeq = r.Seq
 			}
 		}
-		if !ok {
+		if wSeq == 0 {
 			continue
 		}
-		// the next get of that key on this connection, with no other write to the key by anyone after the success
-		for _, op2 := range cs.order[i+1:] {
-			g := cs.reqs[op2]
-			if g.Key != w.Key {
-				continue
-			}
-			if g.Kind != "get" {
-				break
-			}
-			if g.Seq < wSeq {
-				continue
-			}
-			otherWriters := false
-			// requests of one connection are handled concurrently: a later write to the key on the same connection
-			// that was sent before the get was answered may be what the get saw
-			var gReply uint64
-			for _, r := range cs.replies {
-				if r.Op == op2 && gReply == 0 {
-					gReply = r.Seq
-				}
-			}
-			for _, op3 := range cs.order {
-				o := cs.reqs[op3]
-				if op3 == op || o.Key != w.Key || !(o.Kind == "create" || o.Kind == "update" || o.Kind == "insert" || o.Kind == "delete") {
+		// every get of that key, on any connection, that was sent after the success was reported and that no other
+		// write to the key can have preceded (requests are handled concurrently, also those of one connection)
+		for cj, c2 := range s.conns {
+			for _, op2 := range c2.order {
+				g := c2.reqs[op2]
+				if g.Kind != "get" || g.Key != w.Key || g.Seq < wSeq {
 					continue
 				}
-				var oReply uint64
-				for _, r := range cs.replies {
-					if r.Op == op3 && (r.Type == "success" || r.Type == "error") {
-						oReply = r.Seq
+				var gReply uint64
+				var gRep *reply
+				for k := range c2.replies {
+					if r := &c2.replies[k]; r.Op == op2 && gReply == 0 {
+						gReply, gRep = r.Seq, r
 					}
 				}
-				if (gReply == 0 || o.Seq < gReply) && (oReply == 0 || oReply > w.Seq) {
-					otherWriters = true
-				}
-			}
-			for cj, other := range p.Conns {
-				if cj == ci {
+				if gRep == nil {
 					continue
 				}
-				for _, m := range other {
-					if dKeys[m.Key] == w.Key && (m.Kind == "create" || m.Kind == "update" || m.Kind == "insert" || m.Kind == "delete") {
-						otherWriters = true
+				ambiguous := false
+				for _, o := range writesTo[w.Key] {
+					if o.req == w {
+						continue
+					}
+					if o.sent < gReply && (o.replied == 0 || o.replied > w.Seq) {
+						ambiguous = true
 					}
 				}
-			}
-			if otherWriters {
-				break
-			}
-			for _, r := range cs.replies {
-				if r.Op == op2 && r.Type == "ok" {
-					var got, want map[string]any
-					if err := json.Unmarshal([]byte(strings.TrimPrefix(r.Data, "J")), &got); err != nil {
-						rc.Fail("C13.read-back", "a record written through the API is not returned as JSON", r.Data)
-						return
-					}
-					_ = json.Unmarshal([]byte(strings.TrimPrefix(w.Body, "J")), &want)
-					if _, has := got["_meta"]; !has {
-						rc.Fail("C13.read-back", "a record read through the API lacks the metadata section", r.Data)
-						return
-					}
-					delete(got, "_meta")
-					if !reflect.DeepEqual(got, want) {
-						rc.Fail("C13.read-back", "a record written through the API is read back with changed content", fmt.Sprintf("wrote %s, read %s", w.Body, r.Data))
-						return
-					}
-					rc.Probe("read-back-checked")
+				if ambiguous {
+					continue
+				}
+				where := "the same connection"
+				if cj != ci {
+					where = "another connection"
+				}
+				if gRep.Type != "ok" {
+					rc.Fail("C13.read-back", "a record written through the API is not found by a later get ("+where+")", fmt.Sprintf("wrote %s to %s, get replied %s %s", w.Body, w.Key, gRep.Type, gRep.Data))
+					return
+				}
+				var got, want map[string]any
+				if err := json.Unmarshal([]byte(strings.TrimPrefix(gRep.Data, "J")), &got); err != nil {
+					rc.Fail("C13.read-back", "a record written through the API is not returned as JSON", gRep.Data)
+					return
+				}
+				_ = json.Unmarshal([]byte(strings.TrimPrefix(w.Body, "J")), &want)
+				if _, has := got["_meta"]; !has {
+					rc.Fail("C13.read-back", "a record read through the API lacks the metadata section", gRep.Data)
+					return
+				}
+				delete(got, "_meta")
+				if !reflect.DeepEqual(got, want) {
+					rc.Fail("C13.read-back", "a record written through the API is read back with changed content ("+where+")", fmt.Sprintf("wrote %s, read %s", w.Body, gRep.Data))
+					return
+				}
+				rc.Probe("read-back-checked")
+				if cj != ci {
+					rc.Probe("read-back-checked-across-connections")
 				}
 			}
-			break
 		}
 	}
 }
